@@ -19,7 +19,7 @@ import (
 
 func TestMain(m *testing.M) {
 	vx.Rule("a lookup is non-trivial when the reference walk visits >= 2 instances and at least one of: key equals a token, the walk wraps, the set was extended, an unhealthy instance was filtered, a zone was skipped, RF exceeds the instances holding tokens; distinct = distinct (descriptor, key, op, RF, zone-awareness) fingerprint")
-	vx.Assume("zone-awareness on => every instance carries a zone (C02's quantifier; the code special-cases the empty zone)")
+	vx.Assume("zone-awareness on with members that carry no zone: a member without a zone is in no availability zone, so the one-per-zone rule does not bind it (the reading the code's explicit empty-zone guard implements)")
 	vx.Assume("per-call replication-factor overrides are outside the statement")
 	vx.Assume("result order is not asserted, only the set and MaxErrors")
 	vx.Main(m)
@@ -38,11 +38,23 @@ func cfg(rf int, za bool) ring.Config {
 	return ring.Config{HeartbeatTimeout: timeoutSec * time.Second, ReplicationFactor: rf, ZoneAwarenessEnabled: za}
 }
 
+func cfgOf(c lookupCase) ring.Config {
+	out := cfg(c.RF, c.ZA)
+	out.HeartbeatTimeout += time.Duration(c.TimeoutExtraMs) * time.Millisecond
+	return out
+}
+
 type lookupCase struct {
 	Ins []gen.Inst `json:"instances"`
 	RF  int        `json:"rf"`
 	ZA  bool       `json:"zone_aware"`
+	// the lookups happen FracMs milliseconds past a whole second (heartbeat timestamps are whole
+	// seconds), with a heartbeat timeout of timeoutSec seconds + TimeoutExtraMs milliseconds
+	FracMs         int `json:"frac_ms"`
+	TimeoutExtraMs int `json:"timeout_extra_ms"`
 }
+
+func (c lookupCase) timeoutMs() int64 { return timeoutSec*1000 + int64(c.TimeoutExtraMs) }
 
 func ids(rs ring.ReplicationSet) []string {
 	out := make([]string, 0, len(rs.Instances))
@@ -75,7 +87,7 @@ func get(r *ring.Ring, key uint32, op ring.Operation, variant int) (ring.Replica
 func checkLookups(r *ring.Ring, c lookupCase, keys []uint32, record bool) error {
 	for ki, key := range keys {
 		for oi, o := range ops {
-			w, exp := model.Lookup(c.Ins, key, o.Op, c.RF, c.ZA, timeoutSec)
+			w, exp := model.LookupAt(c.Ins, key, o.Op, c.RF, c.ZA, c.timeoutMs(), int64(c.FracMs))
 			rs, err := get(r, key, o.Op, ki+oi)
 			if record {
 				vx.Eval(1)
@@ -131,9 +143,10 @@ func checkLookups(r *ring.Ring, c lookupCase, keys []uint32, record bool) error 
 // state may differ between builds) inside a frozen bubble and checks all lookups.
 func runCase(t *testing.T, c lookupCase, keys []uint32, builds int, record bool) (err error) {
 	vx.Bubble(t, func(b *vx.B) {
+		time.Sleep(time.Duration(c.FracMs) * time.Millisecond) // the bubble's clock starts on a whole second
 		now := time.Now()
 		for i := 0; i < builds && err == nil; i++ {
-			r := fakekv.NewRing(cfg(c.RF, c.ZA), gen.Desc(c.Ins, now))
+			r := fakekv.NewRing(cfgOf(c), gen.Desc(c.Ins, now))
 			err = checkLookups(r.Ring, c, keys, record && i == 0)
 			r.Stop()
 		}
@@ -148,6 +161,20 @@ func genCase(rt *rapid.T) lookupCase {
 		zones = []string{"a", "b", "c", "d", "e"}[:rapid.IntRange(1, 5).Draw(rt, "zones")]
 	}
 	c.Ins = gen.Instances(rt, gen.Opts{MinN: 0, MaxN: 8, Zones: zones, MinTok: 0, MaxTok: 4, HealthyBias: rapid.Bool().Draw(rt, "healthyBias")})
+	if c.ZA && rapid.IntRange(0, 3).Draw(rt, "someUnzoned") == 0 {
+		// zone-awareness on with members that carry no zone (a ring in migration): they are in no zone
+		for i := range c.Ins {
+			if rapid.IntRange(0, 2).Draw(rt, "unzoned") == 0 {
+				c.Ins[i].Zone = ""
+			}
+		}
+		vx.Class("zone_aware_with_unzoned_members", 1)
+	}
+	if rapid.Bool().Draw(rt, "offSecond") {
+		c.FracMs = rapid.SampledFrom([]int{1, 250, 500, 999}).Draw(rt, "fracMs")
+		c.TimeoutExtraMs = rapid.SampledFrom([]int{0, 0, 1, 500, 999}).Draw(rt, "timeoutExtraMs")
+		vx.Class("lookups_off_the_whole_second", 1)
+	}
 	return c
 }
 
